@@ -240,6 +240,34 @@ func miniGlyf(r *v.Rand) *sfnt.Font {
 			o.Names = append(o.Names, so.Names[g])
 		}
 	}
+	// composite glyphs referring to the simple glyphs collected so far (the Go
+	// fonts have none of their own)
+	if nSimple := len(o.Glyphs); nSimple >= 2 {
+		for k := r.Intn(4); k > 0; k-- {
+			a, b := glyph.ID(r.Range(1, nSimple-1)), glyph.ID(r.Range(1, nSimple-1))
+			cg := glyf.CompositeGlyph{Components: []glyf.GlyphComponent{
+				{Flags: glyf.FlagArgsAreXYValues | glyf.FlagMoreComponents | glyf.FlagRoundXYToGrid, GlyphIndex: a,
+					Data: []byte{byte(r.Range(0, 40)), byte(r.Range(0, 255))}},
+				{Flags: glyf.FlagArg1And2AreWords | glyf.FlagArgsAreXYValues | glyf.FlagWeHaveAScale, GlyphIndex: b,
+					Data: []byte{0x01, byte(r.Range(0, 255)), 0xFF, byte(r.Range(0, 255)), 0x30, 0x00}},
+			}}
+			if r.Chance(1, 2) {
+				cg.Components[1].Flags |= glyf.FlagWeHaveInstructions
+				cg.Instructions = []byte{0xB0, byte(r.Range(0, 255)), 0x2D}
+			}
+			if r.Chance(1, 3) {
+				cg.Components[0].Flags |= glyf.FlagUseMyMetrics
+			}
+			o.Glyphs = append(o.Glyphs, &glyf.Glyph{
+				Rect16: funit.Rect16{LLx: funit.Int16(r.Range(-50, 50)), LLy: funit.Int16(r.Range(-300, 0)), URx: funit.Int16(r.Range(400, 1500)), URy: funit.Int16(r.Range(500, 1900))},
+				Data:   cg,
+			})
+			o.Widths = append(o.Widths, funit.Int16(r.Range(0, 2000)))
+			if so.Names != nil {
+				o.Names = append(o.Names, fmt.Sprintf("comp%d", k))
+			}
+		}
+	}
 	switch r.Intn(4) {
 	case 0:
 		o.Names = nil
